@@ -71,16 +71,23 @@ func vc12Seeds(dir string, rng *vh.Rng) ([]c12h.Seed, error) {
 		}
 		data, err := vc12Seal(dir, i, sh.items, sh.fs, keys, rng)
 		if err != nil {
-			return nil, err
+			return seeds, err
 		}
 		db, err := Open(bytes.NewReader(data))
 		if err != nil {
-			return nil, fmt.Errorf("seed %d does not open: %v", i, err)
+			c12h.SkipSeed(fmt.Sprintf("seed %d", i), fmt.Sprintf("does not open: %v", err))
+			continue
 		}
+		answers := true
 		for _, k := range keys {
 			if _, err := db.Lookup(k); err != nil {
-				return nil, fmt.Errorf("seed %d: stored key not found: %v", i, err)
+				c12h.SkipSeed(fmt.Sprintf("seed %d", i), fmt.Sprintf("stored key not found: %v", err))
+				answers = false
+				break
 			}
+		}
+		if !answers {
+			continue
 		}
 		keys = append(keys, []byte("absent-key-1"), rng.Bytes(7))
 		seeds = append(seeds, c12h.Seed{Name: fmt.Sprintf("%s-fs%d-n%d", vc12Part, sh.fs, sh.nkeys), Data: data, Keys: keys,
